@@ -245,6 +245,9 @@ def checks(tier):
         for pf in prefixes:
             free = (5 - len(pf)) if th else ((3 if layer == "serial" else 2) if pf else 3)
             single.append(dict(layer=layer, initial=initial, prefix=pf, free=free))
+        # repeated arm/disarm cycles (hook handles are re-created every time) before the free part
+        for pf in (["t.eval", "t.train"], ["t.eval", "t.train", "t.eval", "t.train"], ["L.eval", "L.train", "t.eval", "t.train"], ["step", "t.eval", "t.train", "t.eval"]):
+            single.append(dict(layer=layer, initial=initial, prefix=pf, free=(3 if th else 2)))
     two = [dict(first=a, second=b, free=(5 if th else (4 if a == "mstdpet" and b == "stdp" else 3)), first_op=k) for a, b in (("stdp", "stdp"), ("stdp", "stdp-other"), ("mstdpet", "stdp"), ("mstdpet", "mstdpet"), ("stdp", "mstdpet"))
            for k in range(7)]
     o = {"max_paths": 400000, "query_timeout_ms": 60000, "max_violations": 4}
@@ -252,7 +255,7 @@ def checks(tier):
 
 
 BOUNDS = {
-    "quick": {"programs": "all programs of 3-4 operations (after the fixed prefixes [], [step], [step, step], [step, del A], [t.eval, step]) over {layer step, trainer train/eval, layer train/eval, "
+    "quick": {"programs": "all programs of 3-4 operations (after the fixed prefixes [], [step], [step, step], [step, del A], [t.eval, step]; 2 operations after the arm/disarm-cycle prefixes [t.eval, t.train], [t.eval, t.train, t.eval, t.train], [L.eval, L.train, t.eval, t.train], [step, t.eval, t.train, t.eval]) over {layer step, trainer train/eval, layer train/eval, "
                           "trainer clear, del/register cell A/B, trainer step}; two-trainer programs of 4 operations over {step, t2 register/del/eval/train/clear, drop t2}",
               "layers": "Serial (1 cell) and a Biclique whose two cells share the post-synaptic group", "trainers": "STDP (one or two, same or different hyper-parameters), MSTDPET",
               "observations": "fresh symbolic spikes each step; monitor contents compared with the closed-form trace over exactly the armed steps"},
